@@ -210,3 +210,7 @@ func MaybeNil[T any](x T, isNil bool) T {
 	}
 	return x
 }
+
+// SetMapOrderNondet makes `range` over maps of 2 or 3 entries visit them in every order (one path per permutation) from
+// now on, as the language leaves the order unspecified. Natively it does nothing (the run time randomises by itself).
+func SetMapOrderNondet(on bool) {}
